@@ -478,17 +478,6 @@ package opset13
 //@   modifies opstate(self)
 //@   loop 1 invariant (self.coefficients == nil || fresh(self.coefficients)) && (self.intercepts == nil || fresh(self.intercepts))
 
-//@ func (*Constant).Init
-//@   tags C02
-//@   requires self != nil
-//@   scope tensor_attribute_present: forall k :: 0 <= k && k < len(n.Attribute) ==> n.Attribute[k] != nil && n.Attribute[k].T != nil
-//@   modifies opstate(self)
-
-//@ func (*ConstantOfShape).Init
-//@   tags C02
-//@   requires self != nil
-//@   scope tensor_attribute_present: forall k :: 0 <= k && k < len(n.Attribute) ==> n.Attribute[k] != nil && n.Attribute[k].T != nil
-//@   modifies opstate(self)
 
 //@ func gather
 //@   tags C02
@@ -501,3 +490,67 @@ package opset13
 //@ func incrementSlices
 //@   tags C02
 //@   modifies slices[*]
+
+// ---------------------------------------------------------------------------------------
+// C11: Constant, ConstantOfShape, Cast (shape, element type, refusals; the per-element values of a
+// cast are Go conversions inside ops.createNewBacking and are not specified here)
+
+//@ func (*Cast).Init
+//@   tags C11,C02
+//@   requires self != nil && n != nil
+//@   scope attributes_present: forall k :: 0 <= k && k < len(n.Attribute) ==> n.Attribute[k] != nil
+//@   modifies opstate(self)
+//@   ensures attribute_count_refused: len(n.Attribute) != 1 ==> err != nil
+//@   ensures other_attribute_refused: len(n.Attribute) == 1 && n.Attribute[0].Name != "to" ==> err != nil
+//@   ensures target_stored: len(n.Attribute) == 1 && n.Attribute[0].Name == "to" ==> err == nil
+
+//@ func (*Cast).Apply
+//@   tags C11,C02
+//@   requires self != nil && len(inputs) == 1 && inputs[0] != nil
+//@   scope extents_positive: dims_positive(inputs[0]) && blen(inputs[0]) == nelems(shapeof(inputs[0]))
+//@   modifies opstate(self)
+//@   ensures unsupported_target_refused: !cast_supported(self.to) ==> err != nil
+//@   ensures unsupported_source_refused: !cast_source(dtype(inputs[0])) ==> err != nil
+//@   ensures converted: cast_supported(self.to) && cast_source(dtype(inputs[0])) ==> err == nil && len(result) == 1 && result[0] != nil && fresh(result[0]) &&
+//@          same_shape(result[0], inputs[0]) && cast_target_is(self.to, dtype(result[0]))
+
+//@ func (*Constant).Init
+//@   tags C11,C02
+//@   requires self != nil && n != nil
+//@   scope tensor_attribute_present: forall k :: 0 <= k && k < len(n.Attribute) ==> n.Attribute[k] != nil && n.Attribute[k].T != nil
+//@   modifies opstate(self)
+//@   ensures attribute_count_refused: len(n.Attribute) != 1 ==> err != nil
+//@   ensures value_float: len(n.Attribute) == 1 && n.Attribute[0].Name == "value_float" ==> err == nil && self.value != nil && rank(self.value) == 0 && dtype(self.value) == Float32
+//@   ensures value_int: len(n.Attribute) == 1 && n.Attribute[0].Name == "value_int" ==> err == nil && self.value != nil && rank(self.value) == 0 && dtype(self.value) == Int64
+//@   ensures value_floats: len(n.Attribute) == 1 && n.Attribute[0].Name == "value_floats" && len(n.Attribute[0].Floats) >= 1 ==> err == nil && self.value != nil && dtype(self.value) == Float32 &&
+//@          blen(self.value) == len(n.Attribute[0].Floats) && (forall k :: 0 <= k && k < len(n.Attribute[0].Floats) ==> telem(self.value, "float32", k) == n.Attribute[0].Floats[k])
+//@   ensures value_ints: len(n.Attribute) == 1 && n.Attribute[0].Name == "value_ints" && len(n.Attribute[0].Ints) >= 1 ==> err == nil && self.value != nil && dtype(self.value) == Int64 &&
+//@          blen(self.value) == len(n.Attribute[0].Ints) && (forall k :: 0 <= k && k < len(n.Attribute[0].Ints) ==> telem(self.value, "int64", k) == n.Attribute[0].Ints[k])
+//@   ensures unsupported_attribute_refused: len(n.Attribute) == 1 && n.Attribute[0].Name != "value" && n.Attribute[0].Name != "value_float" && n.Attribute[0].Name != "value_floats" &&
+//@          n.Attribute[0].Name != "value_int" && n.Attribute[0].Name != "value_ints" ==> err != nil
+
+//@ func (*Constant).Apply
+//@   tags C11,C02
+//@   requires self != nil
+//@   modifies opstate(self)
+//@   ensures returns_the_attribute: err == nil && len(result) == 1 && result[0] == self.value
+
+//@ func (*ConstantOfShape).Init
+//@   tags C11,C02
+//@   requires self != nil && n != nil
+//@   scope tensor_attribute_present: forall k :: 0 <= k && k < len(n.Attribute) ==> n.Attribute[k] != nil && n.Attribute[k].T != nil
+//@   modifies opstate(self)
+//@   ensures attribute_count_refused: len(n.Attribute) > 1 ==> err != nil
+//@   ensures other_attribute_refused: len(n.Attribute) == 1 && n.Attribute[0].Name != "value" ==> err != nil
+//@   ensures default_is_float32_zero: len(n.Attribute) == 0 ==> err == nil && self.value != nil && rank(self.value) == 0 && dtype(self.value) == Float32
+//@   ensures one_element_value: err == nil ==> self.value != nil && blen(self.value) == 1
+
+//@ func (*ConstantOfShape).Apply
+//@   tags C11,C02
+//@   requires self != nil && len(inputs) == 1 && inputs[0] != nil
+//@   scope validated: dtype(inputs[0]) == Int64 && rank(inputs[0]) == 1 && self.value != nil
+//@   modifies opstate(self)
+//@   ensures non_positive_extent_refused: (exists k :: 0 <= k && k < blen(inputs[0]) && telem(inputs[0], "int64", k) <= 0) ==> err != nil
+//@   ensures requested_shape: err == nil ==> len(result) == 1 && result[0] != nil && fresh(result[0]) && rank(result[0]) == blen(inputs[0]) &&
+//@          dtype(result[0]) == dtype(self.value) && (forall k :: 0 <= k && k < blen(inputs[0]) ==> dim(result[0], k) == telem(inputs[0], "int64", k))
+//@   loop 1 invariant forall k :: 0 <= k && k < $i ==> shape[k] >= 1
